@@ -578,7 +578,7 @@ impl Property for C20 {
                         let mut to_3d = Vec::new();
                         let mut back = Vec::new();
                         for q in &sc.uv_queries {
-                            let uvp = with_uv.uv().unwrap().point(q.face, q.bc);
+                            let uvp = with_uv.uv().ok_or_else(|| "Mesh::new_with_uv was given a UV map matching the mesh face by face, but Mesh::uv reports none".to_string())?.point(q.face, q.bc);
                             to_3d.push(with_uv.uv_to_3d(&uvp).map(|s| ([s.point.x, s.point.y, s.point.z], [s.normal.x, s.normal.y, s.normal.z])));
                             let t = pm.tri(q.face);
                             let p3 = add(add(scale(t[0], q.bc[0]), scale(t[1], q.bc[1])), scale(t[2], q.bc[2]));
@@ -707,7 +707,7 @@ impl Property for C20 {
                     match u {
                         OpResult::Panic(m) => out.push(Violation::new("panic", "Mesh::uv_to_3d/uv_with_tol", m.clone(), &[vi])),
                         OpResult::Budget(_) => {}
-                        OpResult::Done(Err(e)) => out.push(Violation::new("unexpected-error", "UvMapping::new", e.clone(), &[vi])),
+                        OpResult::Done(Err(e)) => out.push(Violation::new("unexpected-error", "UvMapping::new / Mesh::new_with_uv", e.clone(), &[vi])),
                         OpResult::Done(Ok(o)) => {
                             let uv = layout;
                             // probes near the surface: through UV and back must give the closest
